@@ -325,7 +325,19 @@ def _max_const(nodes):
     return m
 
 
-def refcount_rule(ctx, rc, reserve, release):
+class _Body:
+    """The statements of a function treated like one loop iteration (the
+    count is touched once, outside any loop): 'break' = early return."""
+
+    def __init__(self, func):
+        self.body = func.node.body
+        self.lineno = func.node.lineno
+        self.col_offset = func.node.col_offset
+        self.end_lineno = getattr(func.node, 'end_lineno', self.lineno)
+        self.end_col_offset = 0
+
+
+def refcount_rule(ctx, rc, reserve, release, same_stop=True):
     A = ctx.E.func(reserve)
     Rl = ctx.E.func(release)
     wa, wr = Walk(ctx, A), Walk(ctx, Rl)
@@ -335,10 +347,14 @@ def refcount_rule(ctx, rc, reserve, release):
                             '(%s)' % (reserve, release, sorted(attrs)))
     attr = attrs.pop()
     la, lr = wa.loop_of(attr), wr.loop_of(attr)
-    if la is None or lr is None:
+    if same_stop and (la is None or lr is None):
         raise AnalysisError('ancestor walk not found in %s / %s' % (
             reserve, release))
-    M = _max_const([la, lr])
+    if la is None:
+        la = _Body(A)
+    if lr is None:
+        lr = _Body(Rl)
+    M = _max_const([A.node, Rl.node])
     try:
         for v in [None] + list(range(1, M + 3)):
             n = 0 if v is None else v
@@ -354,7 +370,7 @@ def refcount_rule(ctx, rc, reserve, release):
                     'refcount | %s | count %d' % (reserve, n),
                     'arriving at a directory with %d reservation(s), %s '
                     'stores %s instead of %d' % (n, reserve, na, n + 1),
-                    ctx.prog.loc(A, la), key=key)
+                    ctx.prog.loc(A, A.node), key=key)
                 continue
             orl = wr.run(attr, lr, na)
             orl = {o for o in orl if o[0] != 'raise'}
@@ -370,7 +386,7 @@ def refcount_rule(ctx, rc, reserve, release):
                     'found %s' % (
                         'count %d' % nr if nr is not None else 'no entry',
                         'count %d' % n if n else 'no entry'))
-            if ka != kr:
+            if ka != kr and same_stop:
                 w = {'fall': 'continues to the parent', 'break': 'stops'}
                 problems.append(
                     'at a directory with %d earlier reservation(s) the '
@@ -386,10 +402,77 @@ def refcount_rule(ctx, rc, reserve, release):
             if problems:
                 rc.violation('refcount | %s vs %s | count %d' % (
                     reserve, release, n), '; '.join(problems),
-                    ctx.prog.loc(Rl, lr), key=key)
+                    ctx.prog.loc(Rl, Rl.node), key=key)
             else:
                 rc.ok({'count': key, 'reserve': '%s -> %d, %s' % (
                     n, na, ka), 'release': '%d -> %s, %s' % (
                         na, nr, kr)}, key=key)
     except Unsupported as e:
         raise AnalysisError('reference-count walk not interpretable: %s' % e)
+
+
+def _climbing_loops(func):
+    """Loops whose body moves a variable to its own parent directory
+    (``x = os.path.dirname(x)``)."""
+    out = []
+    for n in ast.walk(func.node):
+        if not isinstance(n, (ast.While, ast.For)):
+            continue
+        for a in ast.walk(n):
+            if isinstance(a, ast.Assign) and len(a.targets) == 1 and \
+                    isinstance(a.targets[0], ast.Name) and isinstance(
+                        a.value, ast.Call) and ast.unparse(
+                            a.value.func).endswith('dirname') and \
+                    a.value.args and isinstance(a.value.args[0], ast.Name) \
+                    and a.value.args[0].id == a.targets[0].id:
+                out.append(n)
+                break
+    return out
+
+
+def ancestor_walk_rule(ctx, rc, reserve, release):
+    """Sibling agreement of the two ancestor walks: the set that the reserve
+    side fills inside its climbing loop must be emptied by the release side
+    inside a climbing loop as well (a single conditional step forgets one
+    ancestor only)."""
+    A = ctx.E.func(reserve)
+    Rl = ctx.E.func(release)
+    filled = set()
+    for lp in _climbing_loops(A):
+        for c in ast.walk(lp):
+            if isinstance(c, ast.Call) and isinstance(
+                    c.func, ast.Attribute) and c.func.attr == 'add' and \
+                    isinstance(c.func.value, ast.Attribute) and isinstance(
+                        c.func.value.value, ast.Name) and \
+                    c.func.value.value.id == A.self_name:
+                filled.add(c.func.value.attr)
+    if not filled:
+        raise AnalysisError('no ancestor set is filled by a climbing loop '
+                            'of ' + reserve)
+    rloops = _climbing_loops(Rl)
+    for attr in sorted(filled):
+        key = 'ancestors in .%s: added by a walk, removed by a walk' % attr
+        rem = [c for c in ast.walk(Rl.node)
+               if isinstance(c, ast.Call) and isinstance(
+                   c.func, ast.Attribute) and
+               c.func.attr in ('remove', 'discard') and isinstance(
+                   c.func.value, ast.Attribute) and
+               c.func.value.attr == attr]
+        in_loop = [c for c in rem if any(
+            c in list(ast.walk(lp)) for lp in rloops)]
+        if not rem:
+            rc.violation('ancestor-walk | %s | %s' % (release, attr),
+                         '%s never removes from .%s what %s adds' % (
+                             release, attr, reserve),
+                         ctx.prog.loc(Rl, Rl.node), key=key)
+        elif not in_loop:
+            rc.violation(
+                'ancestor-walk | %s | %s' % (release, attr),
+                '%s adds every missing ancestor to .%s in a loop, but %s '
+                'removes ancestors outside any climbing loop (at most one '
+                'level is forgotten; higher ancestors of a failed output '
+                'stay visible in the overlay)' % (reserve, attr, release),
+                ctx.prog.loc(Rl, rem[0]), key=key)
+        else:
+            rc.ok({'set': attr, 'reserve': 'loop', 'release': 'loop'},
+                  key=key)
